@@ -35,6 +35,8 @@ type Node struct {
 	FailOpen    bool // OpenFile fails with EACCES
 	FailLstat   bool
 	FailReadAt  int  // >0: Read fails with EIO after this many bytes
+	// owner names as the source machine's user database resolves UID/GID (may be empty)
+	User, Group string
 	FailReaddir bool
 	// ReaddirCut > 0: listing the directory returns the first ReaddirCut-1
 	// names together with an error (getdents failing part-way)
@@ -310,6 +312,7 @@ func (f *file) ToNode(_ bool, _ func(format string, args ...any)) (*data.Node, e
 	node := &data.Node{
 		Path: f.path, Name: n.Name, Mode: n.Mode & mask, ModTime: n.MTime, AccessTime: n.MTime, ChangeTime: n.MTime,
 		UID: n.UID, GID: n.GID, Inode: n.Inode, DeviceID: n.DevID, Links: n.Links,
+		User: n.User, Group: n.Group,
 	}
 	if node.Links == 0 {
 		node.Links = 1
